@@ -51,7 +51,12 @@ def gen(rng, tier, ctx):
                               hs[h][0], hs[h][1]))
             if k >= 3 and rng.random() < 0.5:          # A B A
                 tries[2] = tries[2][:2] + tries[0][2:]
-            ms.append((n, tries, rng.choice((0, 0, 0xFFFF, 0x1234))) + ((rng.randrange(1, 10**6),) if rng.random() < 0.4 else ()))
+            leb = rng.randrange(1, 10**6) if rng.random() < 0.4 else None
+            extra = []                                  # handler lists no try item refers to (the format allows them)
+            if k and rng.random() < 0.35:
+                for _ in range(rng.choice((1, 1, 2))):
+                    extra.append(([(rng.choice((3, 4, 130)), rng.choice((9, 200)))], rng.choice((None, 77)), rng.random() < 0.5))
+            ms.append((n, tries, rng.choice((0, 0, 0xFFFF, 0x1234)), leb, extra))
         cases.append(ms)
     return cases
 
@@ -61,15 +66,16 @@ def build(case):
     b = DexBuilder(extra_types=["Lexc/E%03d;" % i for i in range(NTYPES)])
     c = b.add_class("Lgen/T;")
     codes = []
-    for k, (n, tries, pad, *leb) in enumerate(case):
+    for k, (n, tries, pad, leb, extra) in enumerate(case):
         insns = [0x0000] * (n - 1) + [0x000E]
         tl = [Try(s, cnt, [("Lexc/E%03d;" % t, a) for t, a in typed], ca) for s, cnt, typed, ca in tries]
-        code = Code(1, 0, 0, insns, tries=tl, pad_unit=pad, leb_seed=leb[0] if leb else None)
+        code = Code(1, 0, 0, insns, tries=tl, pad_unit=pad, leb_seed=leb,
+                    extra_lists=[([("Lexc/E%03d;" % t, a) for t, a in hs], ca, front) for hs, ca, front in extra])
         codes.append(code)
         c.add_method("m%d" % k, "V", [], access=0x9, direct=True, code=code)
     data = b.build()
     tails = []
-    for code, (n, tries, pad, *leb) in zip(codes, case):
+    for code, (n, tries, pad, leb, extra) in zip(codes, case):
         item = b._code_item(code)
         tails.append((n, len(tries), list(item[16 + 2 * n:])))
     tidx = {"Lexc/E%03d;" % i: b.type_index("Lexc/E%03d;" % i) for i in range(NTYPES)}
@@ -111,11 +117,14 @@ def oracle(case, res):
     if isinstance(res, Err):
         return "parsing a generated DEX failed: %s %s" % (res.name, res.msg[:120])
     data, tails, tidx = build(case)
-    for k, ((n, tries, pad, *leb), (gt, gh, ge)) in enumerate(zip(case, res)):
+    for k, ((n, tries, pad, leb, extra), (gt, gh, ge)) in enumerate(zip(case, res)):
         if not tries:
             continue
         if [t[:2] for t in gt] != [[s, c] for s, c, _, _ in tries]:
             return "method m%d: get_tries() gives %r, encoded are %r" % (k, [t[:2] for t in gt], [(s, c) for s, c, _, _ in tries])
+        nlists = len({(tuple(ty), ca) for _, _, ty, ca in tries} | {(tuple(hs), ca) for hs, ca, _ in extra})
+        if len(gh) != nlists:
+            return "method m%d: get_handlers() reports %d handler lists, the code item holds %d" % (k, len(gh), nlists)
         byoff = {h[0]: h for h in gh}
         want = []
         for (s, c, typed, ca), t in zip(tries, gt):
@@ -134,9 +143,10 @@ def oracle(case, res):
 def stats(cases, results):
     d = {"methods": 0, "try_items": 0, "odd_insns_with_tries": 0, "catch_all_at_0": 0, "shared_handlers": 0, "ABA": 0}
     for case in cases:
-        for n, tries, pad, *leb in case:
+        for n, tries, pad, leb, extra in case:
             d["methods"] += 1
             d["leb128_not_in_shortest_form"] = d.get("leb128_not_in_shortest_form", 0) + bool(leb)
+            d["with_unreferenced_handler_lists"] = d.get("with_unreferenced_handler_lists", 0) + bool(extra)
             d["try_items"] += len(tries)
             d["odd_insns_with_tries"] += (n % 2 == 1 and bool(tries))
             d["catch_all_at_0"] += any(t[3] == 0 for t in tries)
